@@ -75,7 +75,12 @@ func (g *Gen) goStmt(x *ssa.Go, h *Heap, guard string) *Heap {
 	}
 	tgt := g.resolveCallee(c)
 	if tgt.contract != nil {
-		env := g.calleeEnv(tgt, c, args, g.val(c.Value), h, h)
+		// locksets are per goroutine: the spawned goroutine starts holding nothing
+		hGo := h
+		if _, ok := g.specs.Ghosts["held"]; ok {
+			hGo = h.Set("G.held", ArrSort(SInt, SBool), "((as const (Array Int Bool)) false)")
+		}
+		env := g.calleeEnv(tgt, c, args, g.val(c.Value), hGo, hGo)
 		ord := g.ordinal("go:" + tgt.key)
 		for i, r := range tgt.contract.Requires {
 			t, err := env.EvalBool(r.E)
@@ -406,6 +411,13 @@ func (g *Gen) applyCall(c *ssa.CallCommon, args []string, recv string, h *Heap, 
 	return g.havocAll(h, guard, why), fresh()
 }
 
+func btoi(b bool) int {
+	if b {
+		return 1
+	}
+	return 0
+}
+
 func lastSeg(k string) string {
 	if i := strings.LastIndexAny(k, ".)"); i >= 0 && i+1 < len(k) {
 		return k[i+1:]
@@ -509,6 +521,59 @@ func (g *Gen) applyContract(t callTarget, c *ssa.CallCommon, args []string, recv
 	default:
 		// extern with a contract but without assigns: assigns nothing
 	}
+	// callback invariants: asserted here, assumed after the call (the callee's own frame is disjoint from them
+	// by its assigns clause; every invocation of the callback preserves them by the callback's own contract)
+	var cbInv []*Clause
+	var cbKey string
+	if pn := ct.Flags["frame_of_param"]; pn != "" && t.fn != nil {
+		for i, prm := range t.fn.Params {
+			if prm.Name() == pn && i < len(c.Args) {
+				if mc, ok := unwrapClosure(c.Args[i]); ok {
+					if cf, ok := mc.Fn.(*ssa.Function); ok {
+						if cc := g.specs.Contracts[funcKey(cf)]; cc != nil {
+							cbInv, cbKey = cc.Preserves, funcKey(cf)
+							cc.Used = true
+						}
+					}
+				}
+			}
+		}
+	}
+	for _, inv := range cbInv {
+		tm, err := g.envAt(h, g.blockCur).EvalBool(inv.E)
+		if err != nil {
+			g.errorf("%s: callback invariant at call from %s: %v", inv.Line, funcKey(g.fn), err)
+			continue
+		}
+		g.vc.Assert(fmt.Sprintf("%s#pre:callback:%s:%s@%d", funcKey(g.fn), cbKey, inv.Name, ord), "pre", guard, tm, g.pos(pos), inv.Text)
+	}
+	// frame_of_param=<name>: the callee invokes the function value passed for that parameter; its effects are
+	// those of the closure given at this call site (write set of the closure's body), added to the declared frame
+	if pn := ct.Flags["frame_of_param"]; pn != "" && t.fn != nil {
+		hasRecv := t.fn.Signature.Recv() != nil
+		for i, prm := range t.fn.Params {
+			if prm.Name() != pn || i >= len(c.Args)+btoi(hasRecv && c.IsInvoke()) {
+				continue
+			}
+			ai := i
+			if ai >= len(c.Args) {
+				break
+			}
+			if mc, ok := unwrapClosure(c.Args[ai]); ok {
+				if cf, ok := mc.Fn.(*ssa.Function); ok {
+					ws := g.w.writeSet(cf, g)
+					if ws.All {
+						post = g.havocAll(post, guard, "callback "+funcKey(cf)+" passed to "+t.key+" ("+ws.Why+")")
+					} else {
+						post = g.havocVarsMono(post, ws, guard)
+					}
+					g.vc.abstract(fmt.Sprintf("callback %s passed to %s: its syntactic write set is added to the callee's frame", funcKey(cf), t.key))
+					break
+				}
+			}
+			post = g.havocAll(post, guard, "function value passed to "+t.key+" is not a closure literal")
+		}
+	}
 	if yields {
 		mentions := false
 		for _, d := range ct.allAssigns() {
@@ -525,6 +590,12 @@ func (g *Gen) applyContract(t callTarget, c *ssa.CallCommon, args []string, recv
 		a0 := g.model.allocNow(post)
 		post = post.HavocVars([]string{allocVar})
 		g.vc.AssumeAt(guard, App(">=", g.model.allocNow(post), a0), "allocation counter is monotone")
+	}
+	for _, inv := range cbInv {
+		tm, err := g.envAt(post, g.blockCur).EvalBool(inv.E)
+		if err == nil {
+			g.vc.AssumeAt(guard, tm, "callback invariant of "+cbKey+" carried across "+t.key+": "+inv.Text)
+		}
 	}
 	// results
 	var results []string
@@ -589,6 +660,21 @@ func (g *Gen) applyContract(t callTarget, c *ssa.CallCommon, args []string, recv
 		c := cells[0]
 		cur := post.Get(c.varName, c.sort)
 		g.vc.AssumeAt(guard, Eq(nestedSelect(cur, c.addrs), v.T), "ghost update of "+t.key+": "+sd.Target)
+	}
+	// intermediate assertions of the caller's contract: proved here, available afterwards
+	for _, k := range []string{t.key, canonKey(originKey(t.fn))} {
+		for _, a := range g.contract.After[k] {
+			tm, err := g.envAt(post, g.blockCur).EvalBool(a.E)
+			if err != nil {
+				g.errorf("%s: after %s assert %s: %v", a.Line, k, a.Name, err)
+				continue
+			}
+			g.vc.Assert(fmt.Sprintf("%s#lemma:%s@%d", funcKey(g.fn), a.Name, ord), "lemma", guard, tm, g.pos(pos), a.Text)
+			g.vc.AssumeAt(guard, tm, "proved after the call to "+k+": "+a.Text)
+		}
+		if k == canonKey(originKey(t.fn)) {
+			break
+		}
 	}
 	// vacuity guard: the state after the call must be reachable under the assumed contract
 	g.vc.Covers = append(g.vc.Covers, CoverPoint{Guard: guard, NAssumes: len(g.vc.assumes), PreAssumes: preAssumes, What: "after call to " + t.key + " at " + g.pos(pos)})
@@ -713,4 +799,28 @@ func (g *Gen) finishReturns() {
 	if g.contract.HasAssigns {
 		g.frameObligations(exit, guard, pos)
 	}
+}
+
+// unwrapClosure looks through type conversions (types.ProcessFunc(func...)) for a closure literal.
+func unwrapClosure(v ssa.Value) (*ssa.MakeClosure, bool) {
+	for {
+		switch x := v.(type) {
+		case *ssa.MakeClosure:
+			return x, true
+		case *ssa.ChangeType:
+			v = x.X
+		default:
+			return nil, false
+		}
+	}
+}
+
+func originKey(fn *ssa.Function) string {
+	if fn == nil {
+		return ""
+	}
+	if o := fn.Origin(); o != nil {
+		return o.String()
+	}
+	return fn.String()
 }
